@@ -96,8 +96,8 @@ impl CommandAcknowledgement {
 impl CommandAcknowledgementHandle {
     /// Marks the flag to indicate that the command execution is done and changes the `CommandStatus`
     pub(crate) fn done(&self, status: CommandStatus) {
-        self.done.store(true, Ordering::Release);
         *self.status.lock() = status;
+        self.done.store(true, Ordering::Release);
         if let Some(waker) = &self.waker_state.lock().waker {
             waker.wake_by_ref();
         }
